@@ -269,13 +269,12 @@ where
             // get a random generator initialized with seed corresponding to couple(id_hash, count)
             // Xoshiro256PlusPlus use [u8; 32] as seed , we must fill seed_256 with (id_hash, count)
             // TODO to optimize
-            let mut seed_256 = [0u8; 32];
-            seed_256[0..8].copy_from_slice(&id_hash.to_ne_bytes());
-            seed_256[8..16].copy_from_slice(&newcount.to_ne_bytes());
-            seed_256[16..24].copy_from_slice(&self.seed.to_ne_bytes());
-            //            seed_256[24..32].copy_from_slice(&0xcf7355744a6e8145_u64.to_ne_bytes());
-
-            let mut rng = Xoshiro256PlusPlus::from_seed(seed_256);
+            // the 3 words (id_hash, count, seed) are mixed into one seed : with a raw from_seed([id_hash, count, seed, 0]) the first
+            // output of Xoshiro256PlusPlus depends only on id_hash, so all occurences of an element got the same first value.
+            let mut mixer = WyHash::with_seed(self.seed);
+            mixer.write_u64(id_hash);
+            mixer.write_u64(newcount);
+            let mut rng = Xoshiro256PlusPlus::seed_from_u64(mixer.finish());
             x = Exp1.sample(&mut rng);
             let mut nb_inserted = 0;
             while x < self.max_tracker.get_max_value() {
